@@ -392,15 +392,17 @@ def composed_ops(ctx, qual, fn, side, centre_zero):
     cx, cy = params[-2:]
     seq = []
     local = []
+    zero = centre_zero if isinstance(centre_zero, tuple) else (centre_zero, centre_zero)  # (cx is zero?, cy is zero?)
 
     def oracle(pe, test):
         if isinstance(test, ast.Compare) and len(test.ops) == 1 and isinstance(test.ops[0], (ast.Eq, ast.NotEq)):
             l, r = pe.ev(test.left), pe.ev(test.comparators[0])
             for a_, b_ in ((l, r), (r, l)):
                 if isinstance(a_, RF) and isinstance(b_, RF) and b_.is_const() and b_.constval() == 0 and (a_ == atom(cx) or a_ == atom(cy)):
-                    return centre_zero if isinstance(test.ops[0], ast.Eq) else not centre_zero
+                    z = zero[0] if a_ == atom(cx) else zero[1]
+                    return z if isinstance(test.ops[0], ast.Eq) else not z
         if isinstance(test, ast.Name) and test.id in (cx, cy):
-            return not centre_zero
+            return not (zero[0] if test.id == cx else zero[1])
         return None
 
     def on_expr(pe, st):
@@ -439,11 +441,13 @@ def composed_ops(ctx, qual, fn, side, centre_zero):
     return seq, params
 
 
-def sandwiches(ctx):
+def sandwiches(ctx, only=None, rule="R04.4"):
     for side in ("pre", "post"):
         for op in ("scale", "rotate", "skew"):
+            if only is not None and (side, op) not in only:
+                continue
             qual = "Matrix.%s_%s" % (side, op)
-            fn = ctx.fn(qual, "R04.4")
+            fn = ctx.fn(qual, rule)
             pseq, params = composed_ops(ctx, qual, fn, side, True)
             lead = [atom(pn) for pn in params[:len(params) - 2]]
             cx, cy = atom(params[-2]), atom(params[-1])
@@ -452,19 +456,28 @@ def sandwiches(ctx):
                 return len(xs) == len(ys) and all(isinstance(x, RF) and x == y for x, y in zip(xs, ys))
 
             ok_plain = len(pseq) == 1 and pseq[0][0] == op and same(pseq[0][1], lead)
-            ctx.ob("R04.4", qual + "[origin]", ok_plain, str([(o, [str(a) for a in ar]) for o, ar in pseq]), fn.lineno, "without a centre the elementary matrix is composed directly")
+            ctx.ob(rule, qual + "[origin]", ok_plain, str([(o, [str(a) for a in ar]) for o, ar in pseq]), fn.lineno, "without a centre the elementary matrix is composed directly")
             cseq, _ = composed_ops(ctx, qual, fn, side, False)
             # pre (first-applied side): translate(+c) ; op ; translate(-c).  post (last-applied side): translate(-c); op; translate(+c)
             first_sign = [cx, cy] if side == "pre" else [-cx, -cy]
             last_sign = [-cx, -cy] if side == "pre" else [cx, cy]
             ok = len(cseq) == 3 and cseq[0][0] == "translate" and same(cseq[0][1], first_sign) and cseq[2][0] == "translate" and same(cseq[2][1], last_sign) \
                 and cseq[1][0] == op and same(cseq[1][1], lead)
-            ctx.ob("R04.4", qual + "[centred]", ok, str([(o, [str(a) for a in ar]) for o, ar in cseq]), fn.lineno,
+            ctx.ob(rule, qual + "[centred]", ok, str([(o, [str(a) for a in ar]) for o, ar in cseq]), fn.lineno,
                    "centred operation must be translate(c) . op . translate(-c) as seen by a point, composed on the %s side" % side)
+            # a centre on one coordinate axis is still a centre: only (0, 0) may take the short cut
+            for zz, tag in (((True, False), "centre on the y axis"), ((False, True), "centre on the x axis")):
+                mseq, _ = composed_ops(ctx, qual, fn, side, zz)
+                okm = len(mseq) == 3 and mseq[0][0] == "translate" and same(mseq[0][1], first_sign) and mseq[2][0] == "translate" and same(mseq[2][1], last_sign) \
+                    and mseq[1][0] == op and same(mseq[1][1], lead)
+                ctx.ob(rule, qual + "[%s]" % tag, okm, str([(o, [str(a) for a in ar]) for o, ar in mseq]), fn.lineno,
+                       "with one centre coordinate 0 and the other not, the operation is still about that centre: a test like `not (x and y)` takes the origin short cut too often")
+        if only is not None:
+            continue
         # axis variants delegate with the neutral element
         for op, neutral, order in (("scale_x", "1", 0), ("scale_y", "1", 1), ("skew_x", "0", 0), ("skew_y", "0", 1), ("translate_x", "0", 0), ("translate_y", "0", 1)):
             qual = "Matrix.%s_%s" % (side, op)
-            fn = ctx.fn(qual, "R04.4")
+            fn = ctx.fn(qual, rule)
             params = [a.arg for a in fn.args.args][1:]
             seq = self_calls([s for s in fn.body if not (isinstance(s, ast.Expr) and isinstance(s.value, ast.Constant))])
             base = op.split("_")[0]
@@ -483,7 +496,7 @@ def sandwiches(ctx):
                     except ValueError:
                         neu_ok = False
                     ok = a_own == params[0] and neu_ok and args[2:] == params[1:]
-            ctx.ob("R04.4", qual, ok, detail, fn.lineno, "axis variant must delegate with its own argument in its slot and the neutral element in the other")
+            ctx.ob(rule, qual, ok, detail, fn.lineno, "axis variant must delegate with its own argument in its slot and the neutral element in the other")
 
 
 # --------------------------------------------------------------------------- R04.5
